@@ -102,12 +102,18 @@ def generate(rng, opts):
         "user_worktree_dirname": rng.choice(["user-wt", "user-wt", "v1", "feature-x", "release-1-0", "dev", "main", "1-0-0"]),
         # the user may be working in a linked worktree of their repository (where .git is a file) and run Griffe there
         "work_in_linked_worktree": rng.random() < 0.25,
+        # $TMPDIR reached through a symbolic link (macOS /tmp, /var): Git reports real paths
+        "tmp_symlinked": rng.random() < 0.2,
+        # a post-checkout hook configured in the repository (git-lfs installs one): it runs at the end of
+        # `git worktree add`, whose exit status is the hook's
+        "post_checkout_hook": rng.choice([None, None, None, None, "ok", "fails"]),
         "dirty": rng.sample(["modified", "staged", "untracked", "ignored"], rng.choice([0, 0, 1, 2, 3])),
         "user_worktree": rng.choice([None, None, None, None, "live", "live", "live", "stale"]) if all_branches else None,
     }
     if opts.get("no_known") and state["user_worktree"] == "stale":
         state["user_worktree"] = "live"
-    refs = all_tags + all_branches + ["HEAD", "main", "HEAD~1"]
+    # incl. Git's shorthands: `@` is HEAD; they normalise to an empty temporary name
+    refs = all_tags + all_branches + ["HEAD", "main", "HEAD~1", "@", "@^", "HEAD^"]
     ops = []
     for _ in range(rng.choice([1, 1, 2, 2, 3])):
         r = rng.random()
@@ -223,6 +229,12 @@ def build_repo(root, world):
     if "ignored" in st["dirty"]:
         with open(os.path.join(repo, "debug.log"), "w") as fh:
             fh.write("l\n")
+    if st.get("post_checkout_hook"):
+        hook = os.path.join(repo, ".git", "hooks", "post-checkout")
+        os.makedirs(os.path.dirname(hook), exist_ok=True)
+        with open(hook, "w") as fh:
+            fh.write("#!/bin/sh\n" + ("echo 'this repository is configured for a tool that is not installed' >&2\nexit 2\n" if st["post_checkout_hook"] == "fails" else "exit 0\n"))
+        os.chmod(hook, 0o755)
     return repo
 
 
@@ -508,9 +520,9 @@ def _ref_commit(world, ref):
             head = branches[0][0]
     if ref in ("main",):
         return last
-    if ref == "HEAD":
+    if ref in ("HEAD", "@"):
         return head
-    if ref == "HEAD~1":
+    if ref in ("HEAD~1", "@^", "HEAD^"):
         return head - 1 if head >= 1 else None
     for i, c in enumerate(commits):
         if ref in c["tags"] or ref in c["branches"]:
@@ -534,6 +546,10 @@ def execute(plan, ctx):
     os.makedirs(root)
     tmpdir = os.path.join(root, "tmp")
     os.makedirs(tmpdir)
+    tmp_for_griffe = tmpdir
+    if world["state"].get("tmp_symlinked"):
+        tmp_for_griffe = os.path.join(root, "tmp-link")
+        os.symlink(tmpdir, tmp_for_griffe)
     old_env = {k: os.environ.get(k) for k in GIT_ENV}
     old_cwd = os.getcwd()
     old_tempdir = tempfile.tempdir
@@ -548,7 +564,7 @@ def execute(plan, ctx):
         if world["state"].get("work_in_linked_worktree") and world["state"]["user_worktree"] == "live" and os.path.isdir(linked):
             repo = linked
         os.chdir(repo)
-        tempfile.tempdir = tmpdir
+        tempfile.tempdir = tmp_for_griffe
         names = _names_iter(str(plan.get("seed", 0)))
         tempfile._get_candidate_names = lambda: names
         prev_op = None
@@ -715,7 +731,7 @@ def shrink_candidates(plan):
             yield {**plan, "ops": ops[:i] + [{**op, "api": "check"}] + ops[i + 1 :]}
     world = plan["world"]
     st = world["state"]
-    for key, simple in (("collide_branch", False), ("detached", False), ("user_worktree", None), ("repo_dirname", "repo"), ("user_worktree_dirname", "user-wt"), ("work_in_linked_worktree", False)):
+    for key, simple in (("collide_branch", False), ("detached", False), ("user_worktree", None), ("repo_dirname", "repo"), ("user_worktree_dirname", "user-wt"), ("work_in_linked_worktree", False), ("tmp_symlinked", False), ("post_checkout_hook", None)):
         if st[key] != simple:
             yield {**plan, "world": {**world, "state": {**st, key: simple}}}
     for red in core.list_reductions(st["dirty"]):
